@@ -324,10 +324,37 @@ def judge(pid, beh, obs):
     raise ValueError(pid)
 
 
+def permuted(beh, variant, n):
+    """The ideal does not depend on the listing order, so every behaviour is also replayed under other orders than the
+    witness TLC happened to keep (with the repaired code all orders reach the same abstract state and the VIEW
+    keeps one of them): reversed, and a seeded shuffle."""
+    if variant == 0:
+        return beh
+    b = dict(beh)
+    ls = []
+    for l in beh.get("listings", []):
+        rng = random.Random(n * 31 + variant + len(l["dir"]))
+        nd, nf = list(l["ldirs"]), list(l["lfiles"])
+        if variant == 1:
+            nd.reverse()
+            nf.reverse()
+        else:
+            rng.shuffle(nd)
+            rng.shuffle(nf)
+        ls.append({"dir": l["dir"], "ldirs": nd, "lfiles": nf})
+    b["listings"] = ls
+    b["effects_order_unknown"] = True
+    return b
+
+
 def _chunk(args):
     pid, chunk, base = args
     out = []
-    for n, beh in chunk:
+    for n, beh0 in chunk:
+      for variant in range(3):
+        beh = permuted(beh0, variant, n)
+        if variant and not any(len(l["ldirs"]) > 1 or len(l["lfiles"]) > 1 for l in beh0.get("listings", [])):
+            continue
         sb = tempfile.mkdtemp(prefix="case_", dir=base)
         try:
             obs = run_case(beh, sb)
@@ -335,16 +362,17 @@ def _chunk(args):
             drift = None
             if v == "ok-drift":
                 v, drift = "ok", {"index_titles": {"model": exp, "observed": got}}
-            if drift is None and beh["outcome"] == "ok" and obs["exc"] is None:
+            if drift is None and beh["outcome"] == "ok" and obs["exc"] is None and not any("l1.cmake" in nd["files"] for nd in beh["tree"]):
                 if cfg_has_out(beh) and obs["out_files"] != impl_out_files(beh):
                     drift = {"impl_files": impl_out_files(beh), "observed": obs["out_files"]}
                 idocs = ["/".join(e["dir"] + [e["file"]]) for e in beh["effects"] if e["e"] in ("page", "print")]
-                if obs["docs"] != idocs:
+                same = (sorted(obs["docs"]) == sorted(idocs)) if beh.get("effects_order_unknown") else (obs["docs"] == idocs)
+                if not same:
                     drift = {"impl_docs": idocs, "observed": obs["docs"]}
             elif beh["outcome"] == "diverges" and obs["exc"] is None:
                 drift = {"impl": "diverges", "observed": "terminated"}
             impl_agrees = drift is None and not obs["unlisted"]
-            out.append((n, v, exp, got, why, drift, impl_agrees))
+            out.append((n, v, exp, got, why, drift, impl_agrees, beh["listings"]))
         finally:
             rmtree(sb)
     return out
@@ -379,14 +407,14 @@ def replay(run, pid, behs, seed, limit=None):
         stats = run.notes.setdefault("replay_verdicts", {"ok": 0, "out": 0, "viol": 0})
         with ProcessPoolExecutor(max_workers=lib.NCPU, initializer=_init, initargs=(lib.CMINX_SRC,)) as ex:
             for part in ex.map(_chunk, chunks):
-                for n, v, exp, got, why, drift, impl_agrees in part:
+                for n, v, exp, got, why, drift, impl_agrees, listings in part:
                     beh = behs[n]
                     run.behaviours += 1
                     stats[v] += 1
                     if v != "out":
-                        run.count(json.dumps([beh["tree"], beh["cfg"], beh["listings"]], sort_keys=True))
+                        run.count(json.dumps([beh["tree"], beh["cfg"], listings], sort_keys=True))
                     if v == "viol":
-                        case = {"tree": beh["tree"], "cfg": beh["cfg"], "listings": beh["listings"],
+                        case = {"tree": beh["tree"], "cfg": beh["cfg"], "listings": listings,
                                 "features": features(beh), "obs_equals_impl_model": impl_agrees}
                         run.violation(case, exp, got, why)
                     elif drift:
